@@ -97,7 +97,7 @@ theorem code_aggregatedDegree (agg : Option (X ℚ → X ℚ → X ℚ)) (raw : 
     object is its name): `variable is hedge* term`, the parts that are set, joined by single blanks. -/
 theorem code_propositionStr (p : Py.Load.Proposition) :
     ∃ σ, Gen.Code.Proposition_str.run p {} = .ok σ ∧ σ.ret = some (AntecedentText.propText p) :=
-  CodeW5Z.code_propositionStr p
+  CodeW5ZR.code_propositionStr p
 
 /-- **Tie A (code → model).**  `Antecedent.prefix(node)` on the tree `Antecedent.load` builds (`expression` is
     `self.expression`, `node = .none` the call without argument): `RuntimeError` when nothing is loaded, otherwise the
@@ -107,7 +107,7 @@ theorem code_antecedentPrefix (expression node : Py.Load.Expression) :
     match AntecedentText.render AntecedentText.pfxText expression node with
     | .error k => Gen.Code.Antecedent_prefix.run expression node {} = .error k.toPy
     | .ok s => ∃ σ, Gen.Code.Antecedent_prefix.run expression node {} = .ok σ ∧ σ.ret = some s :=
-  CodeW5Z.code_antecedentPrefix expression node
+  CodeW5ZR.code_antecedentPrefix expression node
 
 /-- **Tie A (code → model).**  `Antecedent.infix(node)`: the operator name between its operands (no parentheses are
     written: the text of `(a or b) and c` reads `a or b and c`). -/
@@ -115,19 +115,19 @@ theorem code_antecedentInfix (expression node : Py.Load.Expression) :
     match AntecedentText.render AntecedentText.infText expression node with
     | .error k => Gen.Code.Antecedent_infix.run expression node {} = .error k.toPy
     | .ok s => ∃ σ, Gen.Code.Antecedent_infix.run expression node {} = .ok σ ∧ σ.ret = some s :=
-  CodeW5Z.code_antecedentInfix expression node
+  CodeW5ZR.code_antecedentInfix expression node
 
 /-- **Tie A (code → model).**  `Antecedent.postfix(node)`: the operator name after its operands. -/
 theorem code_antecedentPostfix (expression node : Py.Load.Expression) :
     match AntecedentText.render AntecedentText.postText expression node with
     | .error k => Gen.Code.Antecedent_postfix.run expression node {} = .error k.toPy
     | .ok s => ∃ σ, Gen.Code.Antecedent_postfix.run expression node {} = .ok σ ∧ σ.ret = some s :=
-  CodeW5Z.code_antecedentPostfix expression node
+  CodeW5ZR.code_antecedentPostfix expression node
 
 /-- the state machine of `Antecedent.load` keeps the tokens: the postfix form of the tree it builds is the token list -/
 theorem load_keeps_postfix (e : EngineInfo) (pf : List String) (a : ANode) (h : antecedentLoadPostfix e pf = .ok a) :
     a.pfx = pf :=
-  CodeW5Z.pfx_of_load e pf a h
+  CodeW5ZR.pfx_of_load e pf a h
 
 /-- **`Antecedent.postfix` of the expression loaded from a postfix text gives the text back, token for token.**  For
     every engine, every token list `pf` that the state machine of `Antecedent.load` accepts and the expression object
@@ -136,7 +136,7 @@ theorem load_keeps_postfix (e : EngineInfo) (pf : List String) (a : ANode) (h : 
 theorem postfix_of_load (e : EngineInfo) (pf : List String) (a : ANode) (x : Py.Load.Expression)
     (hl : antecedentLoadPostfix e pf = .ok a) (hx : exprA x = some a) :
     ∃ σ, Gen.Code.Antecedent_postfix.run x .none {} = .ok σ ∧ σ.ret = some (Py.joinSp pf) :=
-  CodeW5Z.antecedent_postfix_of_load e pf a x hl hx
+  CodeW5ZR.antecedent_postfix_of_load e pf a x hl hx
 
 /-! ## grammar: every writing of every antecedent loads to that antecedent -/
 
